@@ -43,7 +43,13 @@ DAY0 = (2024, 3, 1)
 
 @st.composite
 def _case(draw):
-    return {"dir": draw(P.directory(1, 3, rich=False, max_headers=3, all_zids=True, canonical_spacing=True)),
+    # half of the directories come from the small-pool generator: tags / properties / links shared
+    # between notes and pages (rows of the tag tables are shared, too)
+    from ..gen import index as G
+
+    d = draw(st.one_of(P.directory(1, 3, rich=False, max_headers=3, all_zids=True, canonical_spacing=True),
+                       G.directory(n_pages=(2, 3), notes_per_page=(2, 4))))
+    return {"dir": d,
             "steps": draw(st.lists(edits.step(), min_size=3, max_size=14))}
 
 
